@@ -3,6 +3,7 @@ import ast
 import re
 
 from ..core import AnalysisError
+from .shared_py import inn
 from ..pyfront import unparse, path_conditions, norm_key
 from . import shared_py as P
 
@@ -161,15 +162,15 @@ def array_decoders(ctx, L):
                 'their own element type and count (`%s`)' % piece, unparse(g.node))
     g = cont.func('fixed_composite_array._decode_impl')
     s = re.sub(r'\s+', ' ', unparse(g.node))
-    L.check('for elem in self: cursor += elem._decode_impl(data, pos + cursor, endianness, terminal=False)' in s and 'return cursor' in s,
+    L.check(inn('for elem in self: cursor += elem._decode_impl(data, pos + cursor, endianness, terminal=False)', s) and inn('return cursor', s),
             'C02.array-decode', 'fixed_composite_array._decode_impl', g.site(), 'every element is decoded consecutively', s)
     g = cont.func('bound_composite_array._decode_impl')
     s = re.sub(r'\s+', ' ', unparse(g.node))
     L.check('del self[:]' in s, 'C02.array-decode', 'bound_composite_array._decode_impl|clear', g.site(),
             'previous elements are dropped before decoding', '')
-    L.check('if not self._SIZE and (not self._BOUND): while pos + cursor < len(data): cursor += self.add()._decode_impl(data, pos + cursor, endianness, terminal=False)' in s,
+    L.check(inn('if not self._SIZE and (not self._BOUND): while pos + cursor < len(data): cursor += self.add()._decode_impl(data, pos + cursor, endianness, terminal=False)', s),
             'C02.array-decode', 'bound_composite_array._decode_impl|greedy', g.site(),
             'a greedy composite array decodes elements until the input is exhausted', s)
-    L.check('for _ in xrange(len_hint): cursor += self.add()._decode_impl(data, pos + cursor, endianness, terminal=False)' in s,
+    L.check(inn('for _ in xrange(len_hint): cursor += self.add()._decode_impl(data, pos + cursor, endianness, terminal=False)', s),
             'C02.array-decode', 'bound_composite_array._decode_impl|counted', g.site(),
             'a sized composite array decodes exactly len_hint elements', s)
